@@ -116,6 +116,10 @@ def check(repo, res, tier):
                         path=o.path.describe())
             else:
                 res.ok('C19.K', f, f.node, what, '%d true-returning paths' % len(trues))
+    # the queries are pure: asking does not change the answer
+    from .purity import QUERIES, check_pure
+    res.rule('C19.P', 'state queries are side-effect free')
+    check_pure(repo, res, 'C19.P', QUERIES, 'asking the question changes the state it reports on')
     # Simulation.is_finished
     f = repo.func('Simulation.is_finished')
     outs0 = outcomes(logic, f, depth=0)
